@@ -37,6 +37,24 @@ def _ascii(pred):
 
 
 # std predicates on `char` whose value is fixed by the language reference (the Unicode-table ones only for ASCII input)
+def _uni_alpha(c):
+    """Rust's char::is_alphabetic (Unicode `Alphabetic`) outside ASCII: letters and letter numbers are; marks may be
+    (Other_Alphabetic is not in Python's tables) -> unknown; everything else is not"""
+    import unicodedata
+    cat = unicodedata.category(c)
+    if cat[0] == "L" or cat == "Nl":
+        return True
+    if cat[0] == "M" or cat == "So":
+        return UNK
+    return False
+
+
+def _uni_num(c):
+    """Rust's char::is_numeric: general categories Nd, Nl, No"""
+    import unicodedata
+    return unicodedata.category(c) in ("Nd", "Nl", "No")
+
+
 CHAR_PREDICATES = {
     "is_ascii": lambda c: c.isascii(),
     "is_ascii_alphabetic": _ascii(lambda c: c.isalpha()),
@@ -51,9 +69,9 @@ CHAR_PREDICATES = {
     "is_ascii_graphic": lambda c: 0x21 <= ord(c) <= 0x7e,
     "is_whitespace": lambda c: ord(c) in _RUST_WHITE_SPACE,
     "is_control": lambda c: ord(c) < 0x20 or 0x7f <= ord(c) <= 0x9f,
-    "is_alphabetic": lambda c: c.isalpha() if c.isascii() else UNK,
-    "is_alphanumeric": lambda c: c.isalnum() if c.isascii() else UNK,
-    "is_numeric": lambda c: c.isdigit() if c.isascii() else UNK,
+    "is_alphabetic": lambda c: c.isalpha() if c.isascii() else _uni_alpha(c),
+    "is_alphanumeric": lambda c: c.isalnum() if c.isascii() else (True if (_uni_alpha(c) is True or _uni_num(c)) else _uni_alpha(c)),
+    "is_numeric": lambda c: c.isdigit() if c.isascii() else _uni_num(c),
     "is_uppercase": lambda c: c.isupper() if c.isascii() else UNK,
     "is_lowercase": lambda c: c.islower() if c.isascii() else UNK,
 }
